@@ -30,6 +30,38 @@ def _opt_calls(model, fi):
             and len(n.args) == 5]
 
 
+def _window_names(model, fi):
+    """Names that denote the current step size, orphan and sequence in fi:
+    the third value unpacked from the window opt() call (renderwb) or what
+    is read back from the published sequence-step-* keys (batch lists)."""
+    out = {'size': set(), 'orphan': {'orphan'}, 'sequence': {'sequence'}}
+    for n in own_nodes(fi.node):
+        if isinstance(n, ast.Assign) and isinstance(n.targets[0], ast.Tuple)\
+                and isinstance(n.value, ast.Call) and \
+                'DT_InSV:opt' in model.callee_names(n.value, fi) and \
+                len(n.targets[0].elts) == 3:
+            a = n.value.args
+            window = not (isinstance(a[0], ast.Constant) and
+                          a[0].value == 0) and not (
+                isinstance(a[1], ast.Constant) and a[1].value == 0)
+            if window and isinstance(n.targets[0].elts[2], ast.Name):
+                out['size'].add(n.targets[0].elts[2].id)
+                out['orphan'].add(norm(a[3]))
+                out['sequence'].add(norm(a[4]))
+        if isinstance(n, ast.Assign) and isinstance(n.targets[0], ast.Name) \
+                and isinstance(n.value, ast.Subscript) and \
+                isinstance(n.value.slice, ast.Constant):
+            k = n.value.slice.value
+            if k == 'sequence-step-size':
+                out['size'].add(n.targets[0].id)
+            elif k == 'sequence-step-orphan':
+                out['orphan'].add(n.targets[0].id)
+        if isinstance(n, ast.Assign) and isinstance(n.targets[0], ast.Name) \
+                and norm(n.value) == 'self.items':
+            out['sequence'].add(n.targets[0].id)
+    return out
+
+
 def rule_windows(model):
     r = RuleResult('C11.R1', 'next batch starts at end+1-overlap, previous '
                    'batch ends at start-1+overlap, at every site')
@@ -70,8 +102,9 @@ def rule_windows(model):
             names = [norm(a) for a in c.args[2:]]
             if not (z0 or z1):
                 continue
-            if names[0] not in ('sz', 'size') or names[1] != 'orphan' or \
-                    names[2] != 'sequence':
+            okn = _window_names(model, fi)
+            if names[0] not in okn['size'] or names[1] not in okn['orphan'] \
+                    or names[2] not in okn['sequence']:
                 r.finding(fi.where, c, 'a neighbouring batch is computed '
                           f'with ({", ".join(names)}) instead of the '
                           'current step size, orphan and sequence', node=c,
@@ -174,6 +207,26 @@ def rule_params(model):
             r.finding(fi.where, f"{got[p]} = int_param(..., '{p}')",
                       f'parameter {p} is stored in `{got[p]}`', node=fi.node,
                       ctx=fi)
+    # int_param decides literal vs variable by trying int()
+    for mshort in ('DT_In', 'DT_Util'):
+        ip = model.func(mshort, 'int_param')
+        ok = False
+        for t in own_nodes(ip.node):
+            if isinstance(t, ast.Try):
+                conv = any(isinstance(c, ast.Call) and norm(c.func) == 'int'
+                           for s_ in t.body for c in ast.walk(s_))
+                look = any(isinstance(x, ast.Subscript) and
+                           norm(x.value) == ip.params()[1]
+                           for h in t.handlers for x in ast.walk(h))
+                if conv and look:
+                    ok = True
+        r.instance(ip.where, 'try int(v) except: md[v]',
+                   'ok' if ok else 'CHANGED')
+        if not ok:
+            r.finding(ip.where, 'literal / variable decision', 'a batch '
+                      'parameter is no longer treated as a literal exactly '
+                      'when int() accepts it (e.g. negative numbers are '
+                      'looked up as variable names)', node=ip.node, ctx=ip)
     # flags inside the item loop
     for n in own_nodes(fi.node):
         if isinstance(n, ast.Assign) and \
@@ -230,7 +283,19 @@ def rule_opt_forms(model):
         raise AnalysisError('opt: signature changed')
     seq = ps[4]
     n = 0
-    for st in own_nodes(fi.node):
+    # opt and the same-module helpers it hands the sequence to
+    nodes = list(own_nodes(fi.node))
+    for c in own_nodes(fi.node):
+        if isinstance(c, ast.Call) and any(norm(a) == seq for a in c.args):
+            for t in model.resolve_callee(c.func, fi):
+                if t[0] == 'func' and t[1].module is fi.module and \
+                        t[1] is not fi:
+                    hp = t[1].params()
+                    idx = [i for i, a in enumerate(c.args)
+                           if norm(a) == seq]
+                    if idx and idx[0] < len(hp) and hp[idx[0]] == seq:
+                        nodes += list(own_nodes(t[1].node))
+    for st in nodes:
         if isinstance(st, ast.Assign) and isinstance(st.targets[0],
                                                      ast.Name):
             t = st.targets[0].id
@@ -272,7 +337,7 @@ def rule_opt_forms(model):
                               'window end / orphan rule is off by that '
                               'difference', node=st, ctx=fi)
     # an explicit end smaller than start is raised to start
-    fix = [x for x in own_nodes(fi.node) if isinstance(x, ast.If)
+    fix = [x for x in nodes if isinstance(x, ast.If)
            and norm(x.test) in ('end < start', 'start > end')]
     r.instance(fi.where, 'if end < start: end = start',
                'ok' if fix else 'MISSING')
@@ -281,16 +346,16 @@ def rule_opt_forms(model):
                   'corrected (start <= end must hold)', node=fi.node,
                   ctx=fi)
     # clamps use the real length
-    clamps = [x for x in own_nodes(fi.node) if isinstance(x, ast.Assign)
+    clamps = [x for x in nodes if isinstance(x, ast.Assign)
               and norm(x.value) == f'len({seq})']
     for c in clamps:
         r.instance(fi.where, c, 'clamp')
         if norm(c.targets[0]) not in ('start', 'end'):
             r.finding(fi.where, c, 'unexpected clamp target', node=c,
                       ctx=fi)
-    if n < 7:
+    if n < 5:
         raise AnalysisError(f'C11.R4: only {n} formula sites in opt')
-    r.floor = 7
+    r.floor = 5
     return r
 
 
